@@ -5,7 +5,8 @@
    Model/Watch.v is a transition system over atomic actions of the polling
    goroutine, the controller (Scan / Transition) and the outside world
    (external edits, ticks); [reachable fixed d s] = some schedule leads from
-   the initial state with root content d to s. The theorems hold for EVERY
+   an initial state (acceleration allowed by the scan mode or not, root
+   content d) to s. The theorems hold for EVERY
    schedule. The model carries a boolean [fixed]:
      fixed = false : watchPoll / Transition AS THE CODE IS;
      fixed = true  : with the proposed repair (Transition sets
@@ -91,7 +92,7 @@ Proof. exact reversal_fixed. Qed.
    strobing, no strobe after the edit, nothing running *)
 Theorem c42_reversal_refuted_unfixed :
   exists s c ign fz w,
-    run false (init 5) reversal_schedule = Some s /\ pc s = PCompare c ign fz w
+    run false (init true 5) reversal_schedule = Some s /\ pc s = PCompare c ign fz w
     /\ wbased w = true /\ ign = false /\ wedits w = 1
     /\ compare_strobes s = false /\ wsa w = false /\ cc s = CIdle
     /\ hd_error (log s) = Some (EvScanFull 7 8).
@@ -99,7 +100,7 @@ Proof. exact reversal_unnoticed_unfixed. Qed.
 
 (* the same schedule with the repair: the compare strobes *)
 Example c42_reversal_witness_fixed :
-  exists s, run true (init 5) (reversal_schedule ++ [APollCompare]) = Some s
+  exists s, run true (init true 5) (reversal_schedule ++ [APollCompare]) = Some s
             /\ hd_error (log s) = Some (EvStrobe SrcPoll 16).
 Proof. exact reversal_noticed_fixed. Qed.
 
